@@ -1253,7 +1253,10 @@ class Engine:
                     return [(s, 'ret', merged_call_value(self, s, args[0], list(packed.items), ci.dest_ty))]
                 except (Unsupported, MergeFail):
                     pass
-            return self.call_value(s, args[0], list(packed.items), ci.dest_ty)
+            f0 = args[0]
+            if isinstance(f0, Ref) and f0.key not in s.store and m is not True:
+                f0 = Tup([], m.group(1))      # capture-less closure held in a never-assigned (zero-sized) local
+            return self.call_value(s, f0, list(packed.items), ci.dest_ty)
         for rx in self.ignored:
             if rx.search(callee):
                 self.stats['calls_uninterpreted']['ignored: ' + callee] = self.stats['calls_uninterpreted'].get('ignored: ' + callee, 0) + 1
